@@ -109,6 +109,29 @@ def run(F, run, tier):
             cs = PI.coeffs(v.args[0])
             run.check(PI.same_poly(cs, q), "R15.4", "interp::hermite", "recovers-polynomial:" + name, F.loc(her),
                       "Hermite interpolation of a quadratic on 2 nodes gives %s" % [str(sp.simplify(c)) for c in cs])
+    # concrete data whose intermediate (divided) differences vanish exactly while higher ones do not: a table filled with an early exit on a
+    # negligible entry, or any shortcut keyed on zeros, shows up here and nowhere in generic symbolic data
+    R = sp.Rational
+    for label, xs_, poly in (("2x^2-x^3@0,1", [R(0), R(1)], [0, 0, 2, -1]), ("2x^2-x^3@1,0", [R(1), R(0)], [0, 0, 2, -1]),
+                             ("x^4@-1,0,1", [R(-1), R(0), R(1)], [0, 0, 0, 0, 1]), ("x^5-x@0,1,-1", [R(0), R(1), R(-1)], [0, -1, 0, 0, 0, 1])):
+        pe = expr_of(poly)
+        ys_ = [pe.subs(X, xk) for xk in xs_]
+        ds_ = [sp.diff(pe, X).subs(X, xk) for xk in xs_]
+        v = call(her, [list(xs_), ys_, ds_, tol], "vanishing-differences:" + label, "R15.4")
+        if v is not None:
+            got = PI.coeffs(v.args[0]) if isinstance(v, sym.Variant) and v.name == "Ok" else None
+            run.check(got is not None and PI.same_poly(got, poly), "R15.4", "interp::hermite", "recovers-polynomial:vanishing-differences:" + label, F.loc(her),
+                      "Hermite data of %s (some intermediate divided differences are exactly 0) give %s" % (label, [str(c) for c in got] if got is not None else v),
+                      sample="hermite recovers %s" % label)
+    for label, xs_, poly in (("x^3-x@-1,0,1,2", [R(-1), R(0), R(1), R(2)], [0, -1, 0, 1]), ("x^3-x@2,1,0,-1", [R(2), R(1), R(0), R(-1)], [0, -1, 0, 1]),
+                             ("x^2@-1,1,0", [R(-1), R(1), R(0)], [0, 0, 1])):
+        pe = expr_of(poly)
+        v = call(lag, [list(xs_), [pe.subs(X, xk) for xk in xs_], tol], "vanishing-differences:" + label, "R15.4")
+        if v is not None:
+            got = PI.coeffs(v.args[0]) if isinstance(v, sym.Variant) and v.name == "Ok" else None
+            run.check(got is not None and PI.same_poly(got, poly), "R15.4", "interp::lagrange", "recovers-polynomial:vanishing-differences:" + label, F.loc(lag),
+                      "Lagrange data of %s (some intermediate interpolants coincide) give %s" % (label, [str(c) for c in got] if got is not None else v),
+                      sample="lagrange recovers %s" % label)
     # complex data from a polynomial with purely imaginary coefficients (real part exactly 0): a clean-up pass that looks at one part only erases them
     cq = [sp.Integer(1), sp.Integer(2) - sp.I, 3 * sp.I, sp.I / 2]      # 1 + (2 − i)x + 3i x² + (i/2) x³
     cqe = expr_of(cq)
